@@ -48,7 +48,9 @@ def one_case(args):
         subprocess.run(['sh', 'cmd.sh'], cwd=d, env=G.env_for(d), stdout=subprocess.DEVNULL, stderr=subprocess.DEVNULL)
         res['prerun'] = True
     command = G.gen_command(rng)
-    rc, out = G.run_gentest(d, 'test_cmd.py', flags, ['outdir'], command)
+    offline = rng.random() < 0.3
+    res['offline'] = offline
+    rc, out = G.run_gentest(d, 'test_cmd.py', flags, ['outdir'], command, offline=offline)
     if rc != 0:
         res['problems'].append('test generation failed (exit %s): %s' % (rc, out[-500:]))
         return res
@@ -83,7 +85,7 @@ def run(ctx):
     results = G.pmap(one_case, [(i, s, base) for i, s in enumerate(seeds)])
     payloads, meta = [], []
     for r in results:
-        case = {k: r.get(k) for k in ('behaviour', 'flags', 'prerun')}
+        case = {k: r.get(k) for k in ('behaviour', 'flags', 'prerun', 'offline')}
         for p in r['problems']:
             ctx.count(repr(case), True)
             ctx.fail(case, p)
